@@ -39,6 +39,10 @@ def run_bounds(ctx, bounds, level_text, assumptions, engine="E1 vx + E2 rs", sta
                stateless_crosschecked=0, stateless_paths=0, deadlocking=0)
     completed, violations, samples = [], [], []
     exhaustive = True
+    import os
+    only = os.environ.get("VERIF_BOUNDS")  # development aid: comma-separated bound names
+    if only:
+        bounds = [b for b in bounds if b[0] in only.split(",")]
     for name, gen in bounds:
         if ctx.deadline.left() < 10:
             exhaustive = False
@@ -62,9 +66,11 @@ def run_bounds(ctx, bounds, level_text, assumptions, engine="E1 vx + E2 rs", sta
         # fingerprint soundness: on small programs the stateless walk (every path to the end) must reach the same terminal states
         small = [(pid, p) for pid, p in progs if graphs[pid]["status"] == "OK" and res[pid].get("paths", 0) and res[pid]["paths"] <= stateless_limit]
         if small and ctx.deadline.left() > 20:
-            sl = vxlib.run_vx(small, ctx.prop + name + "sl", mode="stateless")
+            sl = vxlib.run_vx(small, ctx.prop + name + "sl", mode="stateless", deadline=ctx.deadline.end)
             for pid, p in small:
                 g1, g2 = graphs[pid], sl[pid]
+                if g2["status"] == "SKIP":
+                    continue
                 t1 = set(c for c, en in g1["states"].values() if not en)
                 t2 = set(c for c, en in g2["states"].values() if not en)
                 tot["stateless_crosschecked"] += 1
